@@ -23,6 +23,21 @@ ENGINES = {
 }
 
 
+def merge(a, b):
+    """one property decided by several engines: union of violations, sums of coverage"""
+    a.violations += b.violations
+    a.drift += b.drift
+    for f in ("states", "transitions", "traces", "evaluations", "nontrivial"):
+        setattr(a, f, getattr(a, f) + getattr(b, f))
+    a.samples = (a.samples + b.samples)[:8]
+    a.assumptions = a.assumptions + [x for x in b.assumptions if x not in a.assumptions]
+    a.rule = a.rule + " || " + b.rule
+    for k, v in b.extra.items():
+        a.extra[k if k not in a.extra else k + "_2"] = v
+    a.exhaustive = a.exhaustive and b.exhaustive
+    return a
+
+
 def main():
     ap = argparse.ArgumentParser()
     ap.add_argument("prop")
@@ -34,16 +49,20 @@ def main():
     try:
         if a.prop == "replay":
             rp = json.load(open(a.path))
-            eng = importlib.import_module("engines." + ENGINES[rp["property"]])
-            ok = eng.replay(rp)
+            en = ENGINES[rp["property"]]
+            ok = all(importlib.import_module("engines." + n).replay(rp) for n in (en if isinstance(en, list) else [en]))
             print("REPLAY %s: %s" % (a.path, "still fails" if not ok else "passes"))
             sys.exit(0 if ok else 1)
         if a.prop not in ENGINES:
             print("unknown or not-applicable property", a.prop)
             sys.exit(2)
         tier = a.tier if a.tier in ("quick", "thorough") else "quick"
-        eng = importlib.import_module("engines." + ENGINES[a.prop])
-        out = eng.check(a.prop, tier, a.seed)
+        names = ENGINES[a.prop] if isinstance(ENGINES[a.prop], list) else [ENGINES[a.prop]]
+        out = None
+        for name in names:
+            eng = importlib.import_module("engines." + name)
+            o = eng.check(a.prop, tier, a.seed)
+            out = o if out is None else merge(out, o)
     except C.ToolError as ex:
         print("TOOL-ERROR:", str(ex)[:6000])
         sys.exit(2)
